@@ -985,7 +985,7 @@ def run(chk):
                 "(out-of-range, negative, short/long coordinates, length mismatches, bad dimensions). A case is distinct by "
                 "(kind, entry point, format, dims, entry stream, targets); non-trivial when it has at least one entry")
     chk.trusted += [
-        "hand model coq/model/TensorBuild.v (values in Z; level-wise emission) tied to tensor.py / _cffi_ownership.py by correspondence only",
+        "hand model coq/model/TensorBuild.v (values in Z; level-wise emission) tied to tensor.py / _cffi_ownership.py by correspondence, and for coordinates_to_tree / tree_to_indices_and_values / from_aos / from_dok by regeneration + equivalence proof (TIE tensorbuild; the parts that are self-check only are listed in design.d/TIE_tensorbuild.md)",
         "integer-valued floats: binary64 rounding of duplicate sums is not modelled",
         "cffi int32/double conversion and memory ownership are outside the model",
         "Python-side oracle (expected_dok, py_entries, py_wf in tools/props/C09.py) and the term printer",
